@@ -40,6 +40,11 @@ NPROC = min(16, os.cpu_count() or 4)
 
 
 # ---------------------------------------------------------------- gamma: abstract program -> real source file
+def pop_default_kind(fw, n):
+    """"expr": the default of this pop/get is not a literal (the outer one of an alias), else "dflt" """
+    return "expr" if (fw.get("qpos") == "alias" and fw["q"] and n == fw["q"][0]) else "dflt"
+
+
 def decl_list(prog, fn_chain=None):
     """every declaration of the program, in a fixed order: (owner, name, t, d)"""
     out = []
@@ -50,7 +55,7 @@ def decl_list(prog, fn_chain=None):
                 out.append((f"F{cid}.{j}", p["n"], p["t"], p["d"]))
             if s["kw"]:
                 for n in s["fw"]["q"]:
-                    out.append((f"Q{cid}.{j}", n, "none", "dflt"))
+                    out.append((f"Q{cid}.{j}", n, "none", pop_default_kind(s["fw"], n)))
 
     if fn_chain:
         chain_decls(fn_chain, 0)
@@ -61,7 +66,7 @@ def decl_list(prog, fn_chain=None):
                 out.append((f"C{c}", p["n"], p["t"], p["d"]))
             if i["kw"]:
                 for n in i["fw"]["q"]:
-                    out.append((f"P{c}", n, "none", "dflt"))
+                    out.append((f"P{c}", n, "none", pop_default_kind(i["fw"], n)))
                 chain_decls(i["fw"]["chain"], c)
         if cl["m"]["has"]:
             for p in cl["m"]["ps"]:
@@ -94,24 +99,54 @@ def _params_src(ps, owner, vals, first=None):
     return items
 
 
-def _body_src(sig, owner, popowner, vals, call, ind):
-    """body of a def: record what arrived, pop/get, forward"""
+def _body_src(sig, owner, popowner, vals, call, ind, attr=None):
+    """body of a def: record what arrived, pop/get, forward.  `_peek` / `_keep` / `_rec` never receive **kwargs or
+    *args, so the resolver does not see them (a plain positional `kwargs` is not a use it follows)."""
     lines = [f"{ind}_rec({owner!r}" + "".join(f", {p['n']}={p['n']}" for p in sig["ps"]) + ")"]
-    if sig["kw"]:
-        fw = sig["fw"]
-        for n in fw["q"]:
-            lines.append(f"{ind}v_{n} = kwargs.{fw['qop']}({n!r}, {vals[(popowner, n)]!r})")
+    if not sig["kw"]:
+        return lines
+    fw = sig["fw"]
+    qpos, q, op = fw.get("qpos", "stmt"), fw["q"], fw["qop"]
+    nested = None
+    if qpos == "stmt":
+        for n in q:
+            lines.append(f"{ind}v_{n} = kwargs.{op}({n!r}, {vals[(popowner, n)]!r})")
             lines.append(f"{ind}_rec({popowner!r}, {n}=v_{n})")
-        if call:
-            hard = "".join(f"{n}={'hard:' + owner + ':' + n!r}, " for n in fw["hard"])
-            lines.append(f"{ind}{call}({hard}**kwargs)")
+    elif qpos == "alias":  # kwargs.get("lr", kwargs.get("learning_rate", 0.1))
+        for n in q:
+            lines.append(f"{ind}_peek(kwargs, {popowner!r}, {n!r})")
+        lines.append(f"{ind}v_{q[0]} = kwargs.{op}({q[0]!r}, kwargs.{op}({q[1]!r}, {vals[(popowner, q[1])]!r}))")
+    else:  # "arg" / "kw": the pop is written inside the argument list of the forwarding call
+        lines.append(f"{ind}_peek(kwargs, {popowner!r}, {q[0]!r})")
+        nested = f"kwargs.{op}({q[0]!r}, {vals[(popowner, q[0])]!r})"
+    args = []
+    if fw.get("pos", 0):
+        args.append(nested if qpos == "arg" else repr("pos:" + owner))
+    for idx, n in enumerate(fw["hard"]):
+        args.append(f"{n}=" + (nested if (qpos == "kw" and idx == 0) else repr("hard:" + owner + ":" + n)))
+    if attr:  # kwargs is stored in an attribute and unpacked later in a member
+        name, member, av = attr
+        if av == "upd":
+            lines += [f"{ind}self.{name} = dict()", f"{ind}self.{name}.update(**kwargs)"]
+        elif av == "dict":
+            lines.append(f"{ind}self.{name} = dict(**kwargs)")
+        else:
+            lines.append(f"{ind}self.{name} = kwargs")
+        lines.append(f"{ind}_keep(self, {member!r})")
+    elif call:
+        lines.append(f"{ind}{call}({', '.join(args + ['**kwargs'])})")
     return lines
+
+
+HEADER = ["LOG = []", "OBJS = []", "", "", "def _rec(owner, **vals):", "    LOG.append((owner, vals))", "", "",
+          "def _peek(kw, owner, name):", "    if name in kw:", "        LOG.append((owner, {name: kw[name]}))", "", "",
+          "def _keep(obj, member):", "    OBJS.append((obj, member))", ""]
 
 
 def render(prog, fn_chain=None):
     decls = decl_list(prog, fn_chain)
     vals = default_values(decls)
-    src = ["LOG = []", "", "", "def _rec(owner, **vals):", "    LOG.append((owner, vals))", ""]
+    src = list(HEADER)
 
     def chain_src(chain, cid):
         for j in range(len(chain), 0, -1):
@@ -132,7 +167,8 @@ def render(prog, fn_chain=None):
         chain_src(fn_chain, 0)
     for c, cl in enumerate(prog["classes"], 1):
         i = cl["init"]
-        if i["has"] and i["kw"] and i["fw"]["k"] == "func":
+        kind = i["fw"]["k"] if (i["has"] and i["kw"]) else None
+        if kind in ("func", "attr"):
             chain_src(i["fw"]["chain"], c)
         bases = ", ".join(f"C{b}" for b in cl["bases"])
         src.append("")
@@ -142,11 +178,19 @@ def render(prog, fn_chain=None):
             items = _params_src(i["ps"], f"C{c}", vals, "self") + (["**kwargs"] if i["kw"] else [])
             body.append(f"    def __init__({', '.join(items)}):")
             call = None
-            if i["kw"]:
-                k = i["fw"]["k"]
+            if kind:
                 call = {"super0": "super().__init__", "superB": f"super(C{i['fw']['b']}, self).__init__", "func": f"f{c}_1",
-                        "meth": "self.m", "new": f"C{i['fw']['b']}", "ignore": None}[k]
-            body.extend(_body_src(i, f"C{c}", f"P{c}", vals, call, "        "))
+                        "meth": "self.m", "new": f"C{i['fw']['b']}", "ignore": None, "attr": None}[kind]
+            attr = (f"_kw{c}", f"use{c}", i["fw"].get("av", "meth")) if kind == "attr" else None
+            body.extend(_body_src(i, f"C{c}", f"P{c}", vals, call, "        ", attr))
+            if attr:  # the member that unpacks the stored dict, with the hard-coded arguments of THAT call
+                fw = i["fw"]
+                args = ([repr("pos:C%d" % c)] if fw.get("pos", 0) else []) + [f"{n}={'hard:C%d:%s' % (c, n)!r}" for n in fw["hard"]]
+                body.append("")
+                if attr[2] == "prop":
+                    body.append("    @property")
+                body.append(f"    def use{c}(self):")
+                body.append(f"        return f{c}_1({', '.join(args + ['**self._kw%d' % c])})")
         if cl["m"]["has"]:
             if body:
                 body.append("")
@@ -215,18 +259,41 @@ def universe(prog, fn_chain=None):
     return sorted(names)
 
 
+def use_members(mod):
+    """a stored **kwargs is unpacked when the member is used: use every such member of every object that was built"""
+    objs = list(mod.OBJS)
+    mod.OBJS.clear()
+    for obj, member in objs:
+        v = getattr(obj, member)  # a property is evaluated here
+        if callable(v):
+            v()
+
+
+def first_places(log, sent):
+    """name -> owner of the FIRST log entry that holds the value passed for that name under that name (a value that
+    is popped and handed on as a hard-coded argument shows up again further down: the pop is what received it)"""
+    out = {}
+    for o, vals in log:
+        for n, v in vals.items():
+            if n in sent and n not in out and type(v) is type(sent[n]) and v == sent[n]:
+                out[n] = o
+    return out
+
+
 def interp_table(mod, target, univ):
     """(1) what THE INTERPRETER does with every keyword subset: accepted or not, and where each keyword is bound"""
     rows = []
     for r in range(len(univ) + 1):
         for K in itertools.combinations(univ, r):
             mod.LOG.clear()
+            mod.OBJS.clear()
             try:
                 target(**{n: "S:" + n for n in K})
+                use_members(mod)
                 ok = True
             except (TypeError, AttributeError):
                 ok = False
-            bind = sorted({(n, o) for o, vals in mod.LOG for n, v in vals.items() if v == "S:" + n}) if ok else []
+            bind = sorted(first_places(mod.LOG, {n: "S:" + n for n in K}).items()) if ok else []
             rows.append({"K": list(K), "ok": ok, "bind": [list(b) for b in bind]})
     return rows
 
@@ -273,6 +340,8 @@ def _dcode(default, o, n, vals):
         return "req"
     if isinstance(default, _pr.ConditionalDefault):
         return "cond"
+    if isinstance(default, _pr.UnknownDefault):
+        return "expr"  # the default in the source is not a literal
     exp = vals.get((o, n), inspect._empty)
     if exp is not inspect._empty and type(exp) is type(default) and exp == default:
         return "dflt"
@@ -338,6 +407,8 @@ def observe_parser(target, is_class, vals, offer_by_name):
             d, o = "req", None
         elif isinstance(dv, _pr.ConditionalDefault):
             d, o = "cond", None
+        elif isinstance(dv, _pr.UnknownDefault):
+            d, o = "expr", None
         else:
             o = rev.get((n, type(dv).__name__, dv))
             d = "dflt" if o is not None else "other:" + repr(dv)[:40]
@@ -359,16 +430,18 @@ def instantiate_all(parser, added, target, is_class, mod, offer_by_name):
         cfg = parser.parse_args(args)
         given = dict(cfg.o.items()) if added else {}
         mod.LOG.clear()
+        mod.OBJS.clear()
         if is_class:
             parser.instantiate_classes(cfg)
         else:
             target(**given)
+        use_members(mod)
     except BaseException as ex:  # SystemExit cannot happen with exit_on_error=False, but nothing may escape
         res["raised"] = f"{type(ex).__name__}: {ex}"[:300]
         return res
-    for n, v in given.items():
-        where = sorted({o for o, vals in mod.LOG if n in vals and vals[n] == v and type(vals[n]) is type(v)})
-        res["delivered"].append([n, where])
+    places = first_places(mod.LOG, given)
+    for n in given:
+        res["delivered"].append([n, [places[n]] if n in places else []])
     return res
 
 
@@ -452,6 +525,35 @@ def prog_shape(case_or_prog, comp):
         i = cl["init"]
         ks.append("noinit" if not i["has"] else ("named" if not i["kw"] else i["fw"]["k"]))
     return "cls:" + "/".join(ks)
+
+
+def features(prog, comp):
+    """which parts of the grammar a (program, component) exercises (counted into the evidence: non-vacuity)"""
+    out = set()
+
+    def of_sig(sg):
+        if not (sg["has"] and sg["kw"]):
+            return
+        fw = sg["fw"]
+        out.add("kind:" + fw["k"])
+        if fw["q"]:
+            out.add(f"take:{fw['qop']}/{fw.get('qpos', 'stmt')}")
+        if fw["hard"]:
+            out.add("hard")
+            if fw["k"] == "attr":
+                out.add("attr+hard")
+        if fw.get("pos", 0):
+            out.add("positional")
+        if fw["k"] == "attr":
+            out.add("attr:" + fw.get("av", "-"))
+        for f in fw["chain"]:
+            of_sig(f)
+
+    for cl in prog["classes"]:
+        of_sig(cl["init"])
+    for f in comp.get("chain") or []:
+        of_sig(f)
+    return out
 
 
 def offer_set(params):
@@ -559,8 +661,27 @@ def rand_params(rnd, names, kmax):
     return ps
 
 
-NOFWD = {"k": "ignore", "b": 0, "hard": [], "q": [], "qop": "pop", "chain": []}
+NOFWD = {"k": "ignore", "b": 0, "hard": [], "pos": 0, "q": [], "qop": "pop", "qpos": "stmt", "av": "-", "chain": []}
 NOSIG = {"has": False, "ps": [], "kw": False, "fw": dict(NOFWD)}
+
+
+def rand_take(rnd, fw, names, forwarding, nest_ok=True):
+    """kwargs.pop / kwargs.get in a def: as statements, nested in the arguments of the forwarding call, or as an alias"""
+    r = rnd.random()
+    if forwarding:
+        if r < 0.35:
+            fw["q"], fw["qop"] = sorted(rnd.sample(names, 1)), "pop"
+            fw["qpos"] = rnd.choice(["stmt", "stmt"] + (["arg"] if nest_ok else []) + (["kw"] if (nest_ok and fw["hard"]) else []))
+        elif r < 0.42:
+            fw["q"], fw["qop"], fw["qpos"] = rnd.sample(names, 2), "pop", "alias"
+        if fw["qpos"] == "arg":
+            fw["pos"] = 1
+        elif nest_ok and rnd.random() < 0.08:
+            fw["pos"] = 1  # a hard-coded positional argument
+    elif r < 0.4:
+        fw["q"], fw["qop"] = sorted(rnd.sample(names, rnd.randint(1, 2))), rnd.choice(["pop", "get"])
+    elif r < 0.55:
+        fw["q"], fw["qop"], fw["qpos"] = rnd.sample(names, 2), rnd.choice(["pop", "get"]), "alias"
 
 
 def rand_chain(rnd, names, depth, classes_below=0):
@@ -575,17 +696,15 @@ def rand_chain(rnd, names, depth, classes_below=0):
                 fw["b"] = rnd.randint(1, classes_below)
                 if rnd.random() < 0.3:
                     fw["hard"] = sorted(rnd.sample(names, 1))
+                rand_take(rnd, fw, names, True)
             elif last:
                 fw["k"] = "ignore"
-                if rnd.random() < 0.5:
-                    fw["q"] = sorted(rnd.sample(names, rnd.randint(1, 2)))
-                    fw["qop"] = rnd.choice(["pop", "get"])
+                rand_take(rnd, fw, names, False)
             else:
                 fw["k"] = "next"
                 if rnd.random() < 0.4:
                     fw["hard"] = sorted(rnd.sample(names, rnd.randint(1, 2)))
-                if rnd.random() < 0.3:
-                    fw["q"] = sorted(rnd.sample(names, 1))
+                rand_take(rnd, fw, names, True)
         chain.append({"has": True, "ps": rand_params(rnd, names, 2), "kw": kw, "fw": fw})
     return chain
 
@@ -610,24 +729,23 @@ def rand_program(rnd):
             init["ps"] = rand_params(rnd, names, 3)
             if rnd.random() < 0.8:
                 init["kw"] = True
-                k = rnd.choices(["ignore", "super0", "superB", "func", "meth", "new"], [1, 6, 2, 2, 1, 1 if c > 1 else 0])[0]
+                k = rnd.choices(["ignore", "super0", "superB", "func", "meth", "new", "attr"], [1, 6, 2, 2, 1, 1 if c > 1 else 0, 2])[0]
                 fw = dict(NOFWD)
                 fw["k"] = k
                 if k == "ignore":
-                    if rnd.random() < 0.5:
-                        fw["q"] = sorted(rnd.sample(names, rnd.randint(1, 2)))
-                        fw["qop"] = rnd.choice(["pop", "get"])
+                    rand_take(rnd, fw, names, False)
                 else:
                     if rnd.random() < 0.4:
                         fw["hard"] = sorted(rnd.sample(names, rnd.randint(1, 2)))
-                    if rnd.random() < 0.25:
-                        fw["q"] = sorted(rnd.sample(names, 1))
+                    rand_take(rnd, fw, names, True, nest_ok=(k != "attr"))
                     if k == "superB":
                         fw["b"] = c  # replaced below by a class of the linearisation
                     if k == "new":
                         fw["b"] = rnd.randint(1, c - 1)
-                    if k == "func":
+                    if k in ("func", "attr"):
                         fw["chain"] = rand_chain(rnd, names, rnd.randint(1, 3), c - 1)
+                    if k == "attr":
+                        fw["av"] = rnd.choice(["meth", "prop", "upd", "dict"])
                     if k == "meth":
                         m = {"has": True, "ps": rand_params(rnd, names, 2), "kw": False, "fw": dict(NOFWD)}
                 init["fw"] = fw
@@ -700,6 +818,8 @@ def trace_record(rec):
         "resolved": [{"n": p["n"], "o": p["o"], "t": p["t"], "d": p["d"], "kind": p["kind"], "org": p["org"]} for p in (res or [])],
         "parsed": po is not None,
         "parser": [{"n": p["n"], "o": p["o"] or "?", "t": p["t"], "d": p["d"]} for p in (po or [])],
+        # (3) where every parsed value arrived when everything that was offered was passed (empty if that raised)
+        "delivered": [{"n": n, "o": (w[0] if len(w) == 1 else "?")} for n, w in ((rec.get("inst") or {}).get("delivered") or [])],
     }
 
 
@@ -707,13 +827,6 @@ def trace_record(rec):
 def main(argv):
     tier = "thorough" if (argv and argv[0] == "thorough") else "quick"
     rep = Report(PID, tier)
-    # findings recorded for this property (tools/findings.d/C13.json is the source known_findings.json is generated from)
-    try:
-        mine = json.loads((common.VERIF / "tools" / "findings.d" / "C13.json").read_text())
-        have = {f["key"] for f in rep._known}
-        rep._known += [f for f in mine if f.get("status") == "known" and f["key"] not in have]
-    except Exception:
-        pass
     rep.assumptions = [
         "Python's call semantics are modelled for keyword-only calls of the grammar's defs (named parameters, **kwargs, hard-coded keywords, kwargs.pop/get, super(), super(B, self), self.m, helper functions); the model is validated on every replayed program against the interpreter itself, a mismatch being a machinery failure",
         "the generated classes record the arguments they receive in a module-level log; values do not influence control flow",
@@ -750,6 +863,7 @@ def main(argv):
     if len(results) != len(cases):
         machinery_failure(PID, f"replayed {len(results)} of {len(cases)} programs")
     model_bad = []
+    feat_mc, feat_rnd = {}, {}
     n_calls = 0
     devs_seen = {}
     for case, obs in zip(cases, results):
@@ -767,6 +881,8 @@ def main(argv):
         if not case["callable"]:
             continue
         comp = case["comp"]
+        for ft in features(case["prog"], comp):
+            feat_mc[ft] = feat_mc.get(ft, 0) + 1
         failed = classify(rep, case["prog"], comp, case, obs, obs["source"], "TLC-emitted program")
         if case["dev"] != "-":
             devs_seen[case["dev"]] = devs_seen.get(case["dev"], 0) + 1
@@ -785,6 +901,7 @@ def main(argv):
                           {"program": f["prog"], "component": f["comp"]})
     rep.extra["interpreter_calls"] = n_calls
     rep.extra["deviation_programs_replayed"] = devs_seen
+    rep.extra["features_replayed_callable_programs"] = dict(sorted(feat_mc.items()))
 
     # ---- TRACE
     nprog = 400 if tier == "quick" else 8000
@@ -831,6 +948,8 @@ def main(argv):
             rep.note_nontrivial(json.dumps([rec["prog"], rec["comp"]], sort_keys=True))
         if not callable_:
             continue
+        for ft in features(rec["prog"], rec["comp"]):
+            feat_rnd[ft] = feat_rnd.get(ft, 0) + 1
         dev = meta[1]
         shape = prog_shape(rec["prog"], rec["comp"])
         case = {"how": f"random program {rec['seed']}", "program": rec["prog"], "component": rec["comp"], "source": rec["source"],
@@ -853,12 +972,9 @@ def main(argv):
         if inst is not None and inst["raised"] and pnames_ok:
             key = f"{dev}/{'as-alg' if as_alg else 'other'}:instantiate" if dev != "-" else f"instantiate:{shape}"
             rep.violation(key, f"random program: instantiating with every offered parameter raised {inst['raised']} [{shape}]", case)
-        elif inst is not None and not inst["raised"] and pnames_ok and not ref_fail:
-            by = {p["n"]: p["o"] for p in rec.get("resolved") or []}
-            wrong = [(n, where, by.get(n)) for n, where in inst["delivered"] if where != [by.get(n)]]
-            if wrong:
-                rep.violation(f"deliver:{shape}", f"random program: a parsed value did not arrive at the signature it comes from: {wrong[:3]}", case)
+
     rep.extra["random_components_with_deviation"] = n_dev
+    rep.extra["features_random_callable_components"] = dict(sorted(feat_rnd.items()))
     if recs:
         r0 = recs[len(recs) // 2]
         rep.sample({"random_program": r0["prog"], "component": r0["comp"], "source": r0["source"], "observed_resolved": r0.get("resolved")}, limit=5)
